@@ -1,11 +1,15 @@
-(** Dispatch table of the correspondence checks (one per property). *)
+(** Dispatch table of the correspondence checks: property number, then the
+    lab kind tag that leads every case input. *)
 From Coq Require Import List ZArith.
-From TR Require Import Lib.Sx Run.C12.
+From TR Require Import Lib.Sx Run.C12 Run.Eng.
 Import ListNotations.
 Open Scope Z_scope.
 
+Definition kind_of (inp : sx) : Z := match inp with L (A k :: _) => k | _ => -1 end.
+
 Definition check (prop : Z) (inp impl : sx) : sx :=
-  match prop with
-  | 12 => check_c12 inp impl
-  | _ => badcase
-  end.
+  if prop =? 12 then check_c12 inp impl
+  else match kind_of inp with
+       | 1 => check_eng prop inp impl
+       | _ => badcase
+       end.
